@@ -34,6 +34,12 @@ MUTS = {
  "c06_no_clear_on_open": ("src/redress/circuit.py", "            if should_open:\n                self._state = CircuitState.OPEN\n                self._opened_at = now\n                self._clear_failures()", "            if should_open:\n                self._state = CircuitState.OPEN\n                self._opened_at = now"),
  "c07_allow_gt": ("src/redress/circuit.py", "if now - opened_at >= self._recovery_timeout_s:", "if now - opened_at > self._recovery_timeout_s:"),
  "c07_no_probe_flag": ("src/redress/circuit.py", "                    self._state = CircuitState.HALF_OPEN\n                    self._probe_in_flight = True", "                    self._state = CircuitState.HALF_OPEN"),
+ "c07_record_rejection": ("src/redress/policy/execution.py", "    if not decision.allowed:\n        raise CircuitOpenError(decision.state.value)", "    if not decision.allowed:\n        ctx.breaker.record_failure(ErrorClass.TRANSIENT)\n        raise CircuitOpenError(decision.state.value)"),
+ "c07_exec_invoke_rejected": ("src/redress/policy/policy.py", "            if not decision.allowed:\n                return build_circuit_open_outcome(ctx, decision.state.value)", "            if not decision.allowed and decision.state.value != 'half_open':\n                return build_circuit_open_outcome(ctx, decision.state.value)"),
+ "c09_always_unknown": ("src/redress/policy/async_policy.py", "                klass = outcome.last_class or ErrorClass.UNKNOWN\n                record_failure(ctx, klass)", "                klass = ErrorClass.UNKNOWN\n                record_failure(ctx, klass)"),
+ "c09_scheduled_cancel": ("src/redress/policy/policy.py", "            elif outcome.stop_reason == StopReason.ABORTED:\n                record_cancel(ctx)", "            elif outcome.stop_reason in (StopReason.ABORTED, StopReason.SCHEDULED):\n                record_cancel(ctx)"),
+ "c09_double_record": ("src/redress/policy/policy.py", "            record_success(ctx)\n            return result\n", "            record_success(ctx)\n            record_success(ctx)\n            return result\n"),
+ "c08_drop_finally_async": ("src/redress/policy/async_policy.py", "        finally:\n            ensure_settled(ctx)\n\n    async def _call_without_retry", "        finally:\n            pass\n\n    async def _call_without_retry"),
  "c10_prune_lt": ("src/redress/budget.py", "self._events[0] <= cutoff", "self._events[0] < cutoff"),
  "c10_cap_ge": ("src/redress/budget.py", "if len(self._events) + cost > self.max_retries:", "if len(self._events) + cost >= self.max_retries:"),
 }
